@@ -106,6 +106,11 @@ def _worker_init(tmp_root):
     d = tempfile.mkdtemp(prefix="w%d_" % os.getpid(), dir=tmp_root)
     os.chdir(d)
     _WORKER_TMP = d
+    # cases may call the library's own process pools (run_bldfm_parallel); multiprocessing forbids that in daemonic workers
+    try:
+        mp.current_process()._config["daemon"] = False
+    except Exception:
+        pass
 
 
 def _call(job):
